@@ -31,9 +31,14 @@ def main():
     env_prefix = "CARGO_NET_OFFLINE=true "
     is_patch = demo.endswith(".patch")
 
-    pre = os.environ.get("DEMO_PRE_PATCH")  # a demonstration-only hook patch applied before a script demo
+    pre_all = os.environ.get("DEMO_PRE_PATCH")  # a demonstration-only hook patch applied before a script demo
+
+    pre_bug = os.environ.get("DEMO_PRE_PATCH_BUG")  # variant of the hook patch that applies on top of the bug
 
     def demo_run(label):
+        pre = pre_all
+        if pre_bug and "with the change" in label:
+            pre = pre_bug
         if pre:
             rc, out = sh(f"git apply {pre}", wt)
             if rc != 0:
@@ -50,7 +55,7 @@ def main():
             return ok, out
         rc, out = sh(f"{env_prefix}cargo build --offline 2>&1 | tail -3", wt)
         runner = "python3" if demo.endswith(".py") else "bash"
-        cmd = f"{runner} {demo} ./target/debug/engine"
+        cmd = f"{runner} {demo} ./target/debug/engine " + os.environ.get("DEMO_ARGS", "")
         rc, out = sh(cmd, wt, timeout=900)
         rec["ran"].append({"what": f"{label}: {cmd}", "exit": rc, "tail": out[-500:]})
         return rc == 0, out
